@@ -129,20 +129,27 @@ func parseExclusiveRange(e *Ecosystem, rangeStr string) ([]*constraint, error) {
 	startStr := strings.TrimSpace(parts[0])
 	endStr := strings.TrimSpace(parts[1])
 
-	startVersion, err := e.NewVersion(startStr)
-	if err != nil {
-		return nil, fmt.Errorf("invalid start version in exclusive range: %w", err)
+	// An empty side is unbounded: (1.0,) is x > 1.0 and (,1.0) is x < 1.0
+	var constraints []*constraint
+	if startStr != "" {
+		startVersion, err := e.NewVersion(startStr)
+		if err != nil {
+			return nil, fmt.Errorf("invalid start version in exclusive range: %w", err)
+		}
+		constraints = append(constraints, &constraint{operator: ">", version: startVersion})
+	}
+	if endStr != "" {
+		endVersion, err := e.NewVersion(endStr)
+		if err != nil {
+			return nil, fmt.Errorf("invalid end version in exclusive range: %w", err)
+		}
+		constraints = append(constraints, &constraint{operator: "<", version: endVersion})
+	}
+	if len(constraints) == 0 {
+		return nil, fmt.Errorf("invalid exclusive range: %s", rangeStr)
 	}
 
-	endVersion, err := e.NewVersion(endStr)
-	if err != nil {
-		return nil, fmt.Errorf("invalid end version in exclusive range: %w", err)
-	}
-
-	return []*constraint{
-		{operator: ">", version: startVersion},
-		{operator: "<", version: endVersion},
-	}, nil
+	return constraints, nil
 }
 
 // parseMixedRange handles mixed ranges [1.0.0,2.0.0) or (1.0.0,2.0.0] and unbounded ranges [1.0.0,) or (,2.0.0]
